@@ -260,6 +260,7 @@ RADII = {
     "uniform": lambda n: [1.0] * n,
     "varied": lambda n: [round(0.45 + 0.37 * ((i * 3) % 4), 3) for i in range(n)],
     "big-root": lambda n: [2.6] + [0.4 + 0.2 * (i % 2) for i in range(1, n)],
+    "big-tip": lambda n: [0.4 + 0.2 * (i % 2) for i in range(n - 1)] + [2.6],  # a child sphere that encloses its parent's (thin stub ending in a bouton)
 }
 
 
@@ -373,7 +374,7 @@ def run(ctx):
         ctx.rule("TIFF round trips through real files: every shape (X,Y,Z,C) with X,Y,Z in {1,2,3,5}, C in {1,3} plus four 3-D shapes x dtype (uint8, uint16, float32) x pattern (ramp, random, "
                  "one-hot): same dtype exact, and the documented conversions (uint->float on read/save, float->uint on save/read with dtype given as class and as np.dtype, uint8->uint16); "
                  "NRRD/NPY written by pynrrd/numpy and read back through read_imgs; ToImageStack on every tree <= 4 nodes x coordinates (lattice walk, jittered, lattice with coincident "
-                 "points) x radii (uniform, varied, big root) x resolutions x (default box, explicit shifted box) plus random trees, every voxel centre compared with the round-cone "
+                 "points) x radii (uniform, varied, big root enclosing its children, big tip enclosing its parent) x resolutions x (default box, explicit shifted box) plus random trees, every voxel centre compared with the round-cone "
                  "oracle. Non-trivial = stack with > 1 voxel / tree with >= 1 edge.", exhaustive=False)
     finally:
         shutil.rmtree(base, ignore_errors=True)
